@@ -32,6 +32,8 @@ def cases(draw, tier):
                         iri_like_literals=odd, quirks=draw(gg.quirk_set(one_in=4)) + (["same_local_classes"] if draw(st.integers(0, 9)) == 0 else [])))
     cfg = draw(gg.switches())
     cfg["instances_report_mode"] = "mixed"
+    if draw(st.integers(0, 3)) == 0:
+        cfg["detect_minimal_iri"] = True
     target = draw(common.target_spec(g))
     thr = draw(st.sampled_from([0, 0, 0, 0.5, 1 / 3, 2 / 3, 1]))
     n = len(g["triples"])
@@ -104,6 +106,8 @@ def compare_docs(a, b, M, label_of, thr, kls, texts, dec=False):
         ca, cb = a[lab], b[lab]
         if ca.n != cb.n:
             viol.append("%s: instance count %s vs %s" % (lab, ca.n, cb.n))
+        if ca.stem != cb.stem:
+            viol.append("%s: IRI stem %r vs %r" % (lab, ca.stem, cb.stem))
         if set(ca.cons) != set(cb.cons):
             viol.append("%s: keys differ: %s" % (lab, sorted(set(ca.cons) ^ set(cb.cons))))
             continue
